@@ -47,6 +47,10 @@ type Binding struct {
 	ServerKey    string // RegisterHandler("<...>") whose body calls impl.<GoName>
 	ServerStream *bool  // ServerStream: literal in the client stub (correctable)
 	CallFn       string // RawConfiguration/RawNode method invoked by the client stub
+	SetsPerNode  bool   // the stub assigns cd.PerNodeArgFn
+	HasFParam    bool   // the stub takes a per-node function parameter f
+	SetsQF       bool   // the stub assigns cd.QuorumFunction
+	QFMethod     string // c.qspec.<X>QF invoked inside the quorum function wrapper
 }
 
 // Bindings extracts, from an emitted *_gorums.pb.go source, the method-name
@@ -79,8 +83,26 @@ func Bindings(src string) (map[string]*Binding, error) {
 				continue
 			}
 			name := fd.Name.Name
+			for _, prm := range fd.Type.Params.List {
+				for _, pn := range prm.Names {
+					if _, isFn := prm.Type.(*ast.FuncType); isFn && pn.Name == "f" {
+						get(name).HasFParam = true
+					}
+				}
+			}
 			ast.Inspect(fd.Body, func(n ast.Node) bool {
 				switch x := n.(type) {
+				case *ast.AssignStmt:
+					for _, l := range x.Lhs {
+						if se, ok := l.(*ast.SelectorExpr); ok {
+							if se.Sel.Name == "PerNodeArgFn" {
+								get(name).SetsPerNode = true
+							}
+							if se.Sel.Name == "QuorumFunction" {
+								get(name).SetsQF = true
+							}
+						}
+					}
 				case *ast.KeyValueExpr:
 					k, ok := x.Key.(*ast.Ident)
 					if !ok {
@@ -102,6 +124,9 @@ func Bindings(src string) (map[string]*Binding, error) {
 					if se, ok := x.Fun.(*ast.SelectorExpr); ok {
 						if in, ok := se.X.(*ast.SelectorExpr); ok && (in.Sel.Name == "RawConfiguration" || in.Sel.Name == "RawNode") {
 							get(name).CallFn = se.Sel.Name
+						}
+						if in, ok := se.X.(*ast.SelectorExpr); ok && in.Sel.Name == "qspec" {
+							get(name).QFMethod = se.Sel.Name
 						}
 					}
 				}
@@ -193,6 +218,14 @@ func CheckBindings(fd *descriptorpb.FileDescriptorProto, src string) []string {
 			o := OptsOf(m)
 			if want := WantCallFn(m, o); bi.CallFn != want {
 				bad = append(bad, fmt.Sprintf("%s: client stub uses %s, declared call type needs %s", full, bi.CallFn, want))
+			}
+			if o.PerNodeArg != bi.SetsPerNode || o.PerNodeArg != bi.HasFParam {
+				bad = append(bad, fmt.Sprintf("%s: per_node_arg=%v but the stub takes f: %v and passes it on (cd.PerNodeArgFn): %v", full, o.PerNodeArg, bi.HasFParam, bi.SetsPerNode))
+			}
+			if o.Quorumcall || o.Correctable {
+				if !bi.SetsQF || bi.QFMethod != gn+"QF" {
+					bad = append(bad, fmt.Sprintf("%s: stub does not route replies to the quorum function %sQF (sets QuorumFunction: %v, calls %q)", full, gn, bi.SetsQF, bi.QFMethod))
+				}
 			}
 			if o.Correctable {
 				if bi.ServerStream == nil || *bi.ServerStream != m.GetServerStreaming() {
